@@ -54,6 +54,10 @@ def base_models():
             sp["workplaces"][0]["facilities"][1]["absence"] = [0, 2]
             out.append(sp)
     out.append(F.two_team_workplace_spec())
+    out.append(F.float_noise_spec())
+    sp = F.with_teams({"tasks": [{"name": "T0", "work": 2.0}, {"name": "T1", "work": 3.0}], "links": []}, "POOL2")
+    sp["teams"][0]["workers"][1]["share_logs_with"] = "W0"  # a clone made with copy.copy shares its template's log lists
+    out.append(sp)
     out.append(F.shared_child_spec())
     # automatic task with a half-integer rate (remaining work crosses zero between steps) next to worked tasks
     sp = F.with_teams({"tasks": [{"name": "T0", "work": 2.5, "auto": True}, {"name": "T1", "work": 1.5}, {"name": "T2", "work": 1.0}], "links": [[0, 2, "FS"], [1, 2, "FS"]]}, "MIX")
@@ -210,6 +214,11 @@ def replay_history(spec, hist):
 def work(chunk):
     col = engines.Collector()
     for spec, depth, ops, first in chunk:
+        aliased = any(w.get("share_logs_with") for tm in spec.get("teams", []) for w in tm.get("workers", []))
+        if aliased and not (first[0][0] in ("sim", "simauto", "back", "simu", "init") and (first[0][0] != "sim" or first[0][3])):
+            # two workers that share their log list objects are un-shared by the first log-initialising call; a history that
+            # never initialises the logs keeps writing both workers into one list - that is the model's aliasing, not a defect
+            continue
         key = hash(repr(spec))
         seen = set()
         frontier = collections.deque([first])
